@@ -347,6 +347,9 @@ func (s Schema) Validate() error {
 					if rc == nil || rc.Gen != nil || r == c.Name {
 						return fmt.Errorf("%s.%s: generated expr refers to %q", t.Name, c.Name, r)
 					}
+					if !c.Null && rc.Null {
+						return fmt.Errorf("%s.%s: NOT NULL generated column over nullable %q", t.Name, c.Name, r)
+					}
 				}
 			}
 			if c.Default != nil {
